@@ -162,8 +162,12 @@ class StreamServer:
         except OSError:
             pass
 
+    stop_timeout = 1          # gevent.baseserver.BaseServer.stop_timeout
+
     def stop(self, timeout=None):
         self.close()
+        if timeout is None:
+            timeout = self.stop_timeout
         self.pool.join(timeout)
         self.pool.kill(block=True, timeout=1)
 
